@@ -114,6 +114,8 @@ unsafe impl<#[may_dangle] T> Drop for Rc<T> {
     /// links is the number of adoptions that are alive and nodes is the number
     /// objects in the cycle.
     fn drop(&mut self) {
+        #[cfg(cactusref_verif)]
+        let _verif_scope = crate::verif::DropScope::enter(self.ptr.as_ptr() as usize);
         // If `self` is held in a cycle, as we deallocate members of the cycle,
         // they will drop their refs to `self`. To prevent a double free, mark
         // nodes as dead if they have already been deallocated and short
@@ -192,11 +194,15 @@ unsafe fn drop_unreachable<T>(this: &mut Rc<T>) {
         // Move `T` out of the `RcBox`. Dropping an uninitialized `MaybeUninit`
         // has no effect.
         let inner = mem::replace(&mut (*rcbox).value, MaybeUninit::uninit());
+        #[cfg(cactusref_verif)]
+        crate::verif::ev(crate::verif::Event::MoveOutValue(rcbox as usize));
         // destroy the contained `T`.
         drop(inner.assume_init());
         // Move the links `HashMap` out of the `RcBox`. Dropping an uninitialized
         // `MaybeUninit` has no effect.
         let links = mem::replace(&mut (*rcbox).links, MaybeUninit::uninit());
+        #[cfg(cactusref_verif)]
+        crate::verif::ev(crate::verif::Event::MoveOutLinks(rcbox as usize));
         // Destroy the heap-allocated links.
         drop(links.assume_init());
     }
@@ -261,6 +267,11 @@ unsafe fn drop_cycle<T>(cycle: HashMap<Link<T>, usize>) {
         // cycle holds a strong reference to `this`. Mark all nodes in the cycle
         // as dead so when we deallocate them via the `value` pointer we don't
         // get a double-free.
+        #[cfg(cactusref_verif)]
+        crate::verif::ev(crate::verif::Event::Bust(
+            rcbox as usize,
+            cycle_strong_refs.min((*rcbox).strong()),
+        ));
         for _ in 0..cycle_strong_refs.min((*rcbox).strong()) {
             (*rcbox).dec_strong();
         }
@@ -289,6 +300,8 @@ unsafe fn drop_cycle<T>(cycle: HashMap<Link<T>, usize>) {
             // uninitialized `MaybeUninit` has no effect.
             let links = mem::replace(&mut (*rcbox).links, MaybeUninit::uninit());
             trace!("cactusref deconstructed member {:p} of orphan cycle", rcbox);
+            #[cfg(cactusref_verif)]
+            crate::verif::ev(crate::verif::Event::Mark(rcbox as usize));
             // Move `T` and the `HashMap` out of the `RcBox` to be dropped after
             // busting the cycle.
             inners.push((inner.assume_init(), links.assume_init()));
@@ -296,6 +309,8 @@ unsafe fn drop_cycle<T>(cycle: HashMap<Link<T>, usize>) {
     }
     // Drop and deallocate all `T` and `HashMap` objects.
     drop(inners);
+    #[cfg(cactusref_verif)]
+    crate::verif::ev(crate::verif::Event::Destroyed);
 
     let unreachable_cycle_participants = cycle.into_iter().map(|(ptr, _)| ptr).filter(|ptr| {
         // Filter the set of cycle participants so we only drop `Rc`s that are
@@ -321,6 +336,8 @@ unsafe fn drop_cycle<T>(cycle: HashMap<Link<T>, usize>) {
         );
 
         let rcbox = ptr.as_ptr();
+        #[cfg(cactusref_verif)]
+        crate::verif::ev(crate::verif::Event::Release(rcbox as usize));
         // remove the implicit "strong weak" pointer now that we've destroyed
         // the contents.
         (*rcbox).dec_weak();
@@ -410,11 +427,15 @@ unsafe fn drop_unreachable_with_adoptions<T>(this: &mut Rc<T>) {
         // Move `T` out of the `RcBox`. Dropping an uninitialized `MaybeUninit`
         // has no effect.
         let inner = mem::replace(&mut (*rcbox).value, MaybeUninit::uninit());
+        #[cfg(cactusref_verif)]
+        crate::verif::ev(crate::verif::Event::MoveOutValue(rcbox as usize));
         // destroy the contained `T`.
         drop(inner.assume_init());
         // Move the links `HashMap` out of the `RcBox`. Dropping an uninitialized
         // `MaybeUninit` has no effect.
         let links = mem::replace(&mut (*rcbox).links, MaybeUninit::uninit());
+        #[cfg(cactusref_verif)]
+        crate::verif::ev(crate::verif::Event::MoveOutLinks(rcbox as usize));
         // Destroy the heap-allocated links.
         drop(links.assume_init());
     }
